@@ -346,6 +346,37 @@ pub fn run(ctx: &'static Ctx) {
             }
             na.fetch_add(local, std::sync::atomic::Ordering::Relaxed);
         });
+        // long runs of SINGLE-BYTE operations on one accumulator (an implementation may batch them in hidden state that
+        // raw_value() has to account for): 70 000 add / sink-byte / sub calls per pattern, compared after every call
+        {
+            let mut local = 0u64;
+            for pat in 0..6u8 {
+                for mode in 0..4u8 {
+                    let mut c = at(0x17);
+                    let mut want = 0x17u8;
+                    for i in 0..70_000usize {
+                        let b = match pat { 0 => 0xff, 1 => 0x80, 2 => 0x01, 3 => 0x7f, 4 => (i * 7 + 3) as u8, _ => crate::util::splitmix(i as u64 / 8).to_le_bytes()[i % 8] };
+                        match mode {
+                            0 => { c.add(b); want = want.wrapping_add(b); }
+                            1 => { acpi_tables::AmlSink::byte(&mut c, b); want = want.wrapping_add(b); }
+                            2 => { c.sub(b); want = want.wrapping_sub(b); }
+                            _ => {
+                                // mostly adds, a sub every 1000th call, a slice every 4099th
+                                if i % 4099 == 4098 { c.append(&[b, b, 1]); want = want.wrapping_add(b).wrapping_add(b).wrapping_add(1); }
+                                else if i % 1000 == 999 { c.sub(b); want = want.wrapping_sub(b); }
+                                else { c.add(b); want = want.wrapping_add(b); }
+                            }
+                        }
+                        local += 1;
+                        if c.raw_value() != want || (i % 257 == 0 && c.value() != 0u8.wrapping_sub(want)) {
+                            ctx.violation_sized("acc:long-run", i as u64, || format!("after {} single-byte operations (pattern {}, mode {}) on one accumulator: raw {} expected {}", i + 1, pat, mode, c.raw_value(), want), || json!({"op": "long run", "pattern": pat, "mode": mode, "calls": i + 1}));
+                            break;
+                        }
+                    }
+                }
+            }
+            na.fetch_add(local, std::sync::atomic::Ordering::Relaxed);
+        }
         // the same buffer handed over twice with different contents (what a caller who patches a structure in place and
         // updates the sum does): append(buf); change bytes of buf; delete(buf) — and append / append, delete / delete
         {
